@@ -73,11 +73,11 @@ fn config_hash(w: &World) -> u128 {
 }
 
 fn any_collectable(w: &World, i: usize) -> bool {
-    w.copies(i).values().any(|c| c.entries.values().any(|(_, st, old)| *st != 0 && *old))
+    w.copies(i).values().any(|c| c.entries.values().any(|(_, st, old, _)| *st != 0 && *old))
 }
 
 fn any_young_mark(w: &World) -> bool {
-    (0..w.cfg.n).any(|i| w.copies(i).values().any(|c| c.entries.values().any(|(_, st, old)| *st != 0 && !*old)))
+    (0..w.cfg.n).any(|i| w.copies(i).values().any(|c| c.entries.values().any(|(_, st, old, _)| *st != 0 && !*old)))
 }
 
 /// Symmetry breaking by first use: keys, values (of one size class) and non-writer nodes are
@@ -253,6 +253,12 @@ pub fn replay_json(cfg: &Cfg, b: &Bounds, h: &[Action]) -> Value {
 
 /// Breadth-first exploration of all histories within the budgets.
 pub fn explore(cfg: &Arc<Cfg>, b: &Bounds, deadline: Instant, collect_configs: bool) -> Explored {
+    explore_from(cfg, b, &[], deadline, collect_configs)
+}
+
+/// Same, starting from the state reached by a deterministic prefix ("start from non-initial
+/// states"); the budgets count what is used after the prefix.
+pub fn explore_from(cfg: &Arc<Cfg>, b: &Bounds, prefix: &[Action], deadline: Instant, collect_configs: bool) -> Explored {
     let mut part = Part::new(&format!("cluster/{}", b.name));
     part.bounds = b.to_json(cfg);
     part.rule = "breadth-first search over histories of actions on real Chitchat nodes; a state is re-created by replaying its history on fresh nodes; states are deduplicated on (per node, per member copy: watermark, max version, entries with version/status/age class; multiset of in-flight messages without heartbeats) and a state is pruned when the same configuration was already reached with no more of every budget used (its futures are a subset); keys, values of one size class and non-writer nodes are introduced in index order (symmetry); the oracles run on every transition; non-trivial = distinct reachable states other than the initial one".into();
@@ -260,12 +266,24 @@ pub fn explore(cfg: &Arc<Cfg>, b: &Bounds, deadline: Instant, collect_configs: b
     let mut seen: HashMap<u128, Vec<[u8; 7]>> = HashMap::new();
     let mut configs: HashMap<u128, History> = HashMap::new();
     let mut found: Vec<Found> = vec![];
-    let (w0, _) = replay(cfg, &[]);
-    seen.insert(state_key(&w0), vec![[0; 7]]);
+    let (w0, _) = replay(cfg, prefix);
+    seen.insert(state_key(&w0), vec![used_vec(&w0.used)]);
     if collect_configs {
-        configs.insert(config_hash(&w0), vec![]);
+        configs.insert(config_hash(&w0), prefix.to_vec());
     }
-    let mut frontier: Vec<History> = vec![vec![]];
+    let prefix_used = w0.used.clone();
+    drop(w0);
+    let mut frontier: Vec<History> = vec![prefix.to_vec()];
+    // budgets are counted after the prefix
+    let mut b_abs = b.clone();
+    b_abs.writes += prefix_used.writes;
+    b_abs.syns += prefix_used.syns;
+    b_abs.dups += prefix_used.dups;
+    b_abs.gcs += prefix_used.gcs;
+    b_abs.ticks += prefix_used.ticks;
+    b_abs.handshakes += prefix_used.handshakes;
+    b_abs.restarts += prefix_used.restarts;
+    let b_abs = b_abs;
     let mut depth = 0usize;
     let mut states = 1u64;
     while !frontier.is_empty() {
@@ -282,7 +300,7 @@ pub fn explore(cfg: &Arc<Cfg>, b: &Bounds, deadline: Instant, collect_configs: b
                 let mut fnd: Vec<Found> = vec![];
                 let mut tally = Tally::default();
                 let (w, _) = replay(cfg, hist);
-                let acts = enabled(&w, b);
+                let acts = enabled(&w, &b_abs);
                 drop(w);
                 for base in acts {
                     for_each_choice_variant(cfg, hist, &base, |a, w2, out| {
@@ -340,6 +358,19 @@ pub fn explore(cfg: &Arc<Cfg>, b: &Bounds, deadline: Instant, collect_configs: b
             part.exhaustive = false;
             part.caps_hit.push("stopped early: more than 2000 violating transitions collected".into());
             break;
+        }
+    }
+    if let Ok(f) = std::env::var("CCMC_TRACE") {
+        // debug aid: is every prefix of the given history represented in the explored set?
+        if let Ok(txt) = std::fs::read_to_string(&f) {
+            if let Ok(v) = serde_json::from_str::<Value>(&txt) {
+                let actions: Vec<Action> = v["actions"].as_array().map(|a| a.iter().filter_map(|x| Action::from_json(x, cfg)).collect()).unwrap_or_default();
+                for n in 0..=actions.len() {
+                    let (w, _) = replay(cfg, &actions[..n]);
+                    let k = state_key(&w);
+                    eprintln!("TRACE prefix {n}: used {:?} in_seen={} chain={:?}", used_vec(&w.used), seen.contains_key(&k), seen.get(&k));
+                }
+            }
         }
     }
     part.states = states;
@@ -600,6 +631,28 @@ pub struct Plan {
     pub bounds: Bounds,
     /// wall-clock allowance in seconds
     pub secs: u64,
+    /// deterministic prefix executed before the exploration starts
+    pub prefix: Vec<Action>,
+}
+
+fn w(call: Call, key: u8, val: u8) -> Action {
+    Action::Write { node: 0, call, key, val }
+}
+fn hs(from: u8, to: u8) -> Action {
+    Action::Handshake { from, to, choices: vec![] }
+}
+
+/// Non-initial roots for the 40 KB-value world (node 0 is the owner, val 3 is a 40 KB value).
+pub fn big_root(name: &str) -> Vec<Action> {
+    match name {
+        // the owner holds two 40 KB values and a tombstone on top; node 1 is fully caught up
+        "synced-with-top-tombstone" => vec![w(Call::Set, 0, 3), w(Call::Set, 1, 3), w(Call::Set, 2, 1), w(Call::Delete, 2, 0), hs(0, 1), hs(0, 1)],
+        // same, and the owner has collected the tombstone (its watermark equals node 1's max version)
+        "owner-collected-top-tombstone" => vec![w(Call::Set, 0, 3), w(Call::Set, 1, 3), w(Call::Set, 2, 1), w(Call::Delete, 2, 0), hs(0, 1), hs(0, 1), Action::Tick, Action::Gc { node: 0 }],
+        // node 1 holds a truncated copy (first 40 KB value only)
+        "truncated-copy" => vec![w(Call::Set, 0, 3), w(Call::Set, 1, 3), w(Call::Set, 2, 1), hs(0, 1)],
+        _ => vec![],
+    }
 }
 
 /// Budget vectors are [writes, syn initiations, duplicate deliveries, gc passes, ticks, handshakes, restarts].
@@ -612,16 +665,20 @@ pub fn plans(props: &[&'static str], tier: Tier) -> Vec<Plan> {
     let big3 = || Arc::new(Cfg::simple(3, true, props));
     let big2 = || Arc::new(Cfg::simple(2, true, props));
     let cap = tier.pick(2_000_000, 8_000_000);
-    let p = |cfg: Arc<Cfg>, bounds: Bounds, secs: u64| Plan { cfg, bounds, secs };
+    let p = |cfg: Arc<Cfg>, bounds: Bounds, secs: u64| Plan { cfg, bounds, secs, prefix: vec![] };
+    let pr = |cfg: Arc<Cfg>, bounds: Bounds, secs: u64, root: &str| Plan { cfg, bounds: Bounds { name: format!("{}@{}", bounds.name, root), ..bounds }, secs, prefix: big_root(root) };
     match tier {
         Tier::Quick => vec![
             p(small3(), mk("msg-3nodes-1writer", false, &[0], &all, 2, &[1, 2], [2, 2, 0, 1, 1, 0, 0], cap), 8),
-            p(small3(), mk("msg-3nodes-1writer", false, &[0], &all, 2, &[1, 2], [2, 2, 1, 0, 0, 0, 0], cap), 8),
-            p(small3(), mk("msg-3nodes-1writer", false, &[0], &all, 2, &[1, 2], [3, 2, 0, 1, 1, 0, 0], cap), 15),
+            p(small3(), mk("msg-3nodes-1writer", false, &[0], &all, 2, &[1, 2], [2, 2, 1, 0, 0, 0, 0], cap), 10),
             p(small2(), mk("msg-2nodes-2writers", false, &[0, 1], &all, 2, &[1, 2], [2, 2, 0, 1, 1, 0, 0], cap), 6),
-            p(small2(), mk("msg-2nodes-2writers", false, &[0, 1], &all, 2, &[1, 2], [2, 2, 1, 1, 0, 0, 0], cap), 8),
-            p(big3(), mk("hs-3nodes-big-values", true, &[0], &three, 3, &[1, 3], [3, 0, 0, 2, 1, 5, 0], cap), 12),
-            p(small3(), mk("hs-3nodes-small-values", true, &[0], &all, 3, &[1, 2], [3, 0, 0, 2, 1, 5, 0], cap), 8),
+            p(small2(), mk("msg-2nodes-2writers", false, &[0, 1], &all, 2, &[1, 2], [2, 2, 1, 1, 0, 0, 0], cap), 10),
+            p(big3(), mk("hs-3nodes-big-values", true, &[0], &three, 3, &[1, 3], [2, 0, 0, 1, 1, 4, 0], cap), 8),
+            p(big3(), mk("hs-3nodes-big-values", true, &[0], &three, 3, &[1, 3], [3, 0, 0, 0, 0, 4, 0], cap), 10),
+            p(big3(), mk("hs-3nodes-big-values-2writers", true, &[0, 1], &[Call::Set, Call::Delete], 2, &[3], [3, 0, 0, 0, 0, 3, 0], cap), 8),
+            p(small3(), mk("hs-3nodes-small-values", true, &[0], &all, 3, &[1, 2], [3, 0, 0, 2, 1, 4, 0], cap), 15),
+            pr(big3(), mk("hs-3nodes-big-values", true, &[0], &three, 3, &[1, 3], [1, 0, 0, 1, 1, 2, 0], cap), 8, "owner-collected-top-tombstone"),
+            pr(big3(), mk("hs-3nodes-big-values", true, &[0], &three, 3, &[1, 3], [1, 0, 0, 1, 1, 3, 0], cap), 8, "truncated-copy"),
         ],
         Tier::Thorough => vec![
             p(small3(), mk("msg-3nodes-1writer", false, &[0], &all, 2, &[1, 2], [2, 2, 1, 1, 1, 0, 0], cap), 120),
@@ -633,11 +690,16 @@ pub fn plans(props: &[&'static str], tier: Tier) -> Vec<Plan> {
             p(small2(), mk("msg-2nodes-2writers", false, &[0, 1], &all, 2, &[1, 2], [3, 3, 1, 2, 1, 0, 0], cap), 600),
             p(small2(), mk("msg-2nodes-2writers", false, &[0, 1], &three, 2, &[1, 2], [4, 3, 2, 3, 2, 0, 0], cap), 600),
             p(big2(), mk("msg-2nodes-big-values", false, &[0], &three, 3, &[1, 3], [3, 3, 1, 1, 1, 0, 0], cap), 300),
-            p(big3(), mk("hs-3nodes-big-values", true, &[0], &three, 3, &[1, 3], [4, 0, 0, 2, 1, 5, 0], cap), 300),
+            p(big3(), mk("hs-3nodes-big-values", true, &[0], &three, 3, &[1, 3], [3, 0, 0, 2, 1, 4, 0], cap), 300),
+            p(big3(), mk("hs-3nodes-big-values", true, &[0], &three, 3, &[1, 3], [4, 0, 0, 2, 1, 5, 0], cap), 600),
             p(big3(), mk("hs-3nodes-big-values", true, &[0], &three, 3, &[1, 3, 4], [5, 0, 0, 3, 2, 6, 0], cap), 900),
+            p(big3(), mk("hs-3nodes-big-values-2writers", true, &[0, 1], &three, 2, &[1, 3], [4, 0, 0, 1, 1, 4, 0], cap), 600),
             p(small3(), mk("hs-3nodes-small-values", true, &[0], &all, 3, &[1, 2], [4, 0, 0, 2, 2, 5, 0], cap), 300),
             p(small3(), mk("hs-3nodes-small-values", true, &[0, 1], &all, 3, &[1, 2], [5, 0, 0, 3, 2, 6, 0], cap), 900),
             p(small4(), mk("hs-4nodes-small-values", true, &[0], &all, 3, &[1, 2], [3, 0, 0, 1, 1, 5, 0], cap), 300),
+            pr(big3(), mk("hs-3nodes-big-values", true, &[0], &three, 3, &[1, 3], [2, 0, 0, 1, 1, 4, 0], cap), 600, "synced-with-top-tombstone"),
+            pr(big3(), mk("hs-3nodes-big-values", true, &[0], &three, 3, &[1, 3], [2, 0, 0, 1, 1, 4, 0], cap), 600, "owner-collected-top-tombstone"),
+            pr(big3(), mk("hs-3nodes-big-values", true, &[0], &three, 3, &[1, 3], [2, 0, 0, 2, 1, 4, 0], cap), 600, "truncated-copy"),
         ],
     }
 }
@@ -650,9 +712,13 @@ pub fn run(property: &'static str, tier: Tier) -> Vec<Part> {
     if kf.states > 0 {
         parts.push(kf);
     }
-    for plan in plans(&props, tier) {
+    for (pi, plan) in plans(&props, tier).into_iter().enumerate() {
+        // C01 adds a closure per plan: in the quick tier it runs on a subset of the plans
+        if property == "C01" && tier == Tier::Quick && [1usize, 3, 5, 6].contains(&pi) {
+            continue;
+        }
         let t0 = Instant::now();
-        let ex = explore(&plan.cfg, &plan.bounds, wall(t0, plan.secs), property == "C01");
+        let ex = explore_from(&plan.cfg, &plan.bounds, &plan.prefix, wall(t0, plan.secs), property == "C01");
         let mut part = ex.part;
         add_found(&mut part, &plan.cfg, &plan.bounds, ex.found);
         parts.push(part);
@@ -710,7 +776,7 @@ pub fn replay_known_findings(property: &'static str) -> Part {
 pub fn replay_file(v: &Value) -> Result<(), String> {
     let n = v["config"]["nodes"].as_u64().unwrap_or(3) as usize;
     let big = v["config"]["big_values"].as_bool().unwrap_or(false);
-    let all: Vec<&'static str> = vec!["C02", "C03", "C04", "C05", "C07", "C08", "C20"];
+    let all: Vec<&'static str> = vec!["C01", "C02", "C03", "C04", "C05", "C07", "C08", "C20"];
     let cfg = Arc::new(Cfg::simple(n, big, &all));
     let actions: Vec<Action> = v["actions"].as_array().ok_or("no actions")?.iter().filter_map(|a| Action::from_json(a, &cfg)).collect();
     let mut w = World::new(cfg.clone());
@@ -762,4 +828,25 @@ pub fn run_plan(plan: &str, property: &'static str, tier: Tier, secs: u64) -> Ve
         parts.push(cpart);
     }
     parts
+}
+
+/// Debug aid: replays a history and reports, for every step, whether the explorer would have
+/// considered that action enabled under the `hs3` experiment bounds (CCMC_B).
+pub fn debug_enabled(v: &Value) {
+    let props = vec!["C01"];
+    let three = [Call::Set, Call::Delete, Call::SetTtl];
+    let bvv: Vec<u8> = std::env::var("CCMC_B").unwrap_or("5,0,0,1,1,3,0".into()).split(',').filter_map(|x| x.parse().ok()).collect();
+    let mut bv = [0u8; 7];
+    for (i, x) in bvv.iter().enumerate().take(7) {
+        bv[i] = *x;
+    }
+    let cfg = Arc::new(Cfg::simple(3, true, &props));
+    let b = mk("hs3", true, &[0], &three, 3, &[1, 3], bv, 1_000_000);
+    let actions: Vec<Action> = v["actions"].as_array().unwrap().iter().filter_map(|a| Action::from_json(a, &cfg)).collect();
+    let mut w = World::new(cfg.clone());
+    for a in &actions {
+        let en = enabled(&w, &b);
+        println!("{} enabled={} (of {})", a.to_json(&cfg), en.contains(a), en.len());
+        w.apply(a, false);
+    }
 }
